@@ -28,12 +28,26 @@ func ExponentialBackoff(count, maxRetries int, baseDelay, maxDelay time.Duration
 			return -1
 		}
 
+		if baseDelay <= 0 {
+			return 0
+		}
+
 		delay := float64(baseDelay) * math.Pow(multiplier, float64(count))
 		jitter := (rand.Float64() - 0.5) * randomization * float64(baseDelay)
-		sleepDuration := time.Duration(delay + jitter)
+		sleep := delay + jitter
 
+		// float64 -> Duration is only defined below 2^63: beyond it (and for +Inf, NaN) the
+		// conversion yields a negative value that would slip through the comparison with maxDelay
+		if !(sleep < 1<<63) {
+			return maxDelay
+		}
+
+		sleepDuration := time.Duration(sleep)
 		if sleepDuration > maxDelay {
 			sleepDuration = maxDelay
+		}
+		if sleepDuration < 0 {
+			sleepDuration = 0
 		}
 
 		return sleepDuration
